@@ -105,6 +105,9 @@ def polar_stub(matrix, left=True):
     function of the matrix (two 3x3 results whose cells are uninterpreted functions of the 9 entries)."""
     c = sym.ctx()
     args = [R(x) for x in np.asarray(matrix, dtype=object).flat]
+    if all(a.concrete and a.v == 0 for a in args):
+        # svd of the zero matrix: singular values 0, so the stretch factor is 0 (numpy returns U = Vh = I)
+        return sarr(np.eye(3)), sarr(np.zeros((3, 3)))
     outs = []
     for name in ("polR", "polU"):
         o = np.empty((3, 3), dtype=object)
